@@ -393,8 +393,15 @@ class Expander:
                 self.exec_block(st.body, env)
             elif choice == "orelse":
                 self.exec_block(st.orelse, env)
+            elif choice == "ignore":
+                pass                  # the rule has looked at the branch itself and found it value-preserving
             elif choice == "skip":
-                pass
+                # neither arm is followed: whatever the statement may write is no longer the value the algebra holds (a name bound
+                # before and re-bound / updated in an arm - `if Z > 6: Z = 6.0` - is unreadable afterwards; a name first bound
+                # inside stays unbound)
+                for name in _written_names(st):
+                    if name in env and not isinstance(env[name], PoisonV):
+                        env[name] = PoisonV(f"`{name}` may be re-bound by the branch at line {st.lineno}, which the rule does not follow")
             else:
                 raise Unsupported(f"branch at line {st.lineno}: {choice}")
             return
@@ -719,7 +726,8 @@ class Expander:
     # -------------------------------------------------------------- calls
     FUNCS1 = {"exp": anf.exp_, "log": anf.log_, "sqrt": anf.sqrt_, "erf": anf.erf_,
               "erfcx": anf.erfcx_, "log1p": anf.log1p_, "expm1": anf.expm1_, "cos": anf.cos_, "tanh": anf.tanh_,
-              "abs": anf.abs_, "absolute": anf.abs_, "fabs": anf.abs_}
+              "abs": anf.abs_, "absolute": anf.abs_, "fabs": anf.abs_,
+              "reciprocal": lambda x: R.const(1) / x}       # as a value; that it keeps an integer dtype is the dtype lint's business
 
     def eval_call(self, node, env):
         if self.call_hook is not None:
